@@ -4,7 +4,8 @@ proof:          lean/MPilot/Props/C06.lean
 correspondence: the seven operators, 1-5 inputs, admissible k and weights, dense lattice incl. missing cells
                 (all lattice tuples for <= 3 inputs are enumerated in one array per operator)
 oracles:        exact reference definitions (max, min, -, mean, weighted mean, mean of k truest/falsest, xor formula);
-                order invariance; Not∘Not = id; De Morgan; And <= Union <= Or; SelectedUnion k=1 / k=n coincidences
+                order invariance; Not∘Not = id; De Morgan; And <= Union <= Or; SelectedUnion k=1 / k=n coincidences;
+                the definitions again on grids of 10^4 .. 10^5 cells (4-6 inputs, every k); an accepted spelling of Truest / Falsest selects what it says
 """
 import itertools
 from fractions import Fraction
@@ -146,6 +147,84 @@ def algebra(ctx, count):
             ctx.fail("SelectedUnion(k = all) != Union", desc)
 
 
+def at_scale(ctx):
+    """the seven operators on grids of 10^4 to some 10^5 cells, 2 to 6 inputs (a body may sort, partition or select differently once the stack of its inputs passes
+    some size).  Directed: FuzzySelectedUnion over 4, 5 and 6 inputs on a ladder of grids, Truest and Falsest, EVERY k from 1 to n; the other operators once per
+    rung; many ties (a lattice of nine values), few missing cells, fields with and without a mask array.  Compared with the definition written in plain numpy
+    (sort the column, take the mean of the k last / first): missing cells exactly, values to 1e-9; k = 1 is Or / And, k = n is Union"""
+    rng = eems._rng2(ctx)
+    seed = rng.randrange(2 ** 31)
+    nr = numpy.random.RandomState(seed)
+
+    def check(cmd, params, ins, shape, form):
+        st, r = eems.execute_on(cmd, params, ins)
+        ctx.case("at-scale %s %r %s %d %r" % (cmd, shape, form, len(ins), sorted(params.items())), sample=None)
+        ctx.count("c06_at_scale_cases")
+        desc = {"cmd": cmd, "params": {k: repr(v) for k, v in params.items()}, "shape": list(shape), "inputs": len(ins), "fields": form,
+                "values": "quarters between -1 and 1, 3 %% of the cells missing (form mask) or none (form nomask: no mask array); numpy.random.RandomState(%d)" % seed,
+                "first_cells": [repr(numpy.ma.getdata(a).ravel()[:6].tolist()) for a in ins]}
+        if st != "ok":
+            ctx.fail("%s over %d fields of %d cells fails with %s: %s" % (cmd, len(ins), ins[0].size, type(r).__name__, str(r)[:80]), desc)
+            return None
+        ref = numeric.np_reference(cmd, params, ins)
+        d = numeric.field_differs(r, ref) if ref is not None else None
+        if d:
+            ctx.fail("%s(%s) over %d fields of %d cells: %s" % (cmd, ", ".join("%s = %r" % kv for kv in sorted(params.items())), len(ins), ins[0].size, d), desc)
+        return r
+
+    ladder = [(4, (150, 120)), (5, (30000,)), (6, (40, 50, 30)), (4, (700, 400)), (5, (1, 310000))] + ([(5, (1000, 1000))] if ctx.thorough else [])
+    for j, (n, shape) in enumerate(ladder):
+        form = ("mask", "nomask")[j % 2]
+        ins = [eems.big_field(nr, shape, form, 4) for _ in range(n)]
+        cells = ins[0].size
+        results = {}
+        for which in ("Truest", "Falsest"):
+            for k in (range(1, n + 1) if cells * n < 1000000 else (1, 2, n - 1)):
+                results[(which, k)] = check("FuzzySelectedUnion", {"TruestOrFalsest": which, "NumberToConsider": k}, ins, shape, form)
+        for cmd in ("FuzzyOr", "FuzzyAnd", "FuzzyUnion", "FuzzyXOr", "FuzzyWeightedUnion", "FuzzyNot"):
+            params = {"Weights": [rng.choice([1, 2, 0.5, 3, 0.25, -1]) for _ in range(n)]} if cmd == "FuzzyWeightedUnion" else {}
+            if params and sum(params["Weights"]) == 0:
+                params["Weights"][0] += 1
+            results[cmd] = check(cmd, params, ins[:1] if cmd == "FuzzyNot" else ins, shape, form)
+        # the coincidences of the property, on the implementation's own results
+        for (which, k), other in ((("Truest", 1), "FuzzyOr"), (("Falsest", 1), "FuzzyAnd"), (("Truest", n), "FuzzyUnion"), (("Falsest", n), "FuzzyUnion")):
+            a, b = results.get((which, k)), results.get(other)
+            if a is not None and b is not None and isinstance(a, numpy.ndarray) and isinstance(b, numpy.ndarray) and a.shape == b.shape:
+                d = numeric.field_differs(a, (numpy.ma.getdata(b).astype(float), numpy.ma.getmaskarray(b)))
+                if d:
+                    ctx.fail("FuzzySelectedUnion(%s, %d) of %d fields of %d cells differs from %s of the same fields: %s" % (which, k, n, cells, other, d),
+                             {"cmd": "FuzzySelectedUnion", "params": {"TruestOrFalsest": which, "NumberToConsider": k}, "shape": list(shape), "inputs": n, "fields": form,
+                              "values": "quarters between -1 and 1; numpy.random.RandomState(%d)" % seed})
+
+
+SPELLINGS = ["truest", "falsest", "TRUEST", "FALSEST", "tRUEST", "fALSEST", "TruesT", "FalsesT", "truesT", "Truest ", " Falsest", "falsest\t", " truest "]
+
+
+def spellings(ctx):
+    """the keyword written in another capitalisation or with blanks around it (hand-written command files): the command may refuse it with its own error - but
+    a spelling it ACCEPTS selects what the word says: `truest` is not Falsest.  Every spelling, 3 and 4 inputs, every k below n (where the two ends differ)"""
+    cases = []
+    cols = [[-1.0, -0.5, 0.25, 1.0, 0.0, 0.75], [0.5, -1.0, -0.25, 0.0, 1.0, 0.75], [0.0, 0.25, 1.0, -0.75, -1.0, 0.75], [1.0, 0.75, -1.0, 0.5, -0.5, 0.75]]
+    for sp in SPELLINGS:
+        for n, shape in ((3, (6,)), (4, (2, 3))):
+            ins = [numpy.ma.array(numpy.array(cols[j]).reshape(shape), mask=numpy.array([False] * 5 + [j == 1]).reshape(shape)) for j in range(n)]
+            for k in range(1, n):
+                cases.append(Case("FuzzySelectedUnion", {"TruestOrFalsest": sp, "NumberToConsider": k}, [a.copy() for a in ins]))
+    return cases
+
+
+def oracle_spelling(ctx):
+    def on_result(case, out, ans):
+        if case.cmd != "FuzzySelectedUnion" or case.params.get("TruestOrFalsest") in ("Truest", "Falsest"):
+            return
+        if str(case.params.get("TruestOrFalsest")).strip().lower() not in numeric.SPELLED:
+            return
+        ctx.count("c06_spelling_cases")
+        if out["status"] == "err" and not (out["kind"] == "mp" and out["cls"] in ("InvalidTruestOrFalsest", "InvalidNumberToConsider", "MixedArrayShapes")):
+            ctx.fail("FuzzySelectedUnion(TruestOrFalsest = %r) is refused with %s %s, not with InvalidTruestOrFalsest" % (case.params["TruestOrFalsest"], out["kind"], out["cls"]), case.describe())
+    return on_result
+
+
 def run(ctx):
     ctx.check_proofs(["MPilot.Props.C06"])
     model = common.Model()
@@ -162,6 +241,9 @@ def run(ctx):
     wild = [eems.gen_case(ctx.rng, cmd, style="wild") for cmd in OPS for _ in range(ctx.budget(8, 200))]
     eems.run_stream(ctx, model, wild, "exec:fuzzy-ops:errors", on_result=orc)
     algebra(ctx, ctx.budget(40, 1500))
+    # (added after the streams above so that those generate what they always generated under a given seed)
+    eems.run_stream(ctx, model, spellings(ctx), "exec:fuzzy-ops:keyword-spellings", on_result=numeric.combine(orc, oracle_spelling(ctx)))
+    at_scale(ctx)
     numeric.focus_search(ctx, model, lambda cmds, f: gen_random(ctx, cmds, 20 * f), orc)
     return ctx.finish(
         rule="(a) per operator and parameter choice one array case whose columns enumerate every tuple of the fuzzy lattice ∪ {missing} "
